@@ -307,3 +307,53 @@ func Recover(f func()) (p string) {
 	f()
 	return ""
 }
+
+// ---------------------------------------------------------------- known findings
+
+var openFindings map[string]bool
+
+// OpenFinding reports whether (prop, key) is listed with status "open" in /verif/KNOWN_FINDINGS.json or
+// /verif/findings.d/*.json. Drivers give an input the domain key of a known finding only while that finding
+// is open: once the defect is repaired and the entry moved to "fixed", the same inputs fall back into D_ok,
+// where the correspondence and the theorems must hold.
+func OpenFinding(prop, key string) bool {
+	if openFindings == nil {
+		openFindings = map[string]bool{}
+		dir := os.Getenv("VERIF_DIR")
+		if dir == "" {
+			dir = "/verif"
+		}
+		files, _ := filepath.Glob(filepath.Join(dir, "findings.d", "*.json"))
+		files = append(files, filepath.Join(dir, "KNOWN_FINDINGS.json"))
+		for _, f := range files {
+			raw, err := os.ReadFile(f)
+			if err != nil {
+				continue
+			}
+			var doc struct {
+				Findings []struct {
+					Property string `json:"property"`
+					Key      string `json:"key"`
+					Status   string `json:"status"`
+				} `json:"findings"`
+			}
+			if json.Unmarshal(raw, &doc) != nil {
+				continue
+			}
+			for _, e := range doc.Findings {
+				if e.Status == "open" {
+					openFindings[strings.ToUpper(e.Property)+"/"+e.Key] = true
+				}
+			}
+		}
+	}
+	return openFindings[strings.ToUpper(prop)+"/"+key]
+}
+
+// KeyIf returns key when the finding is open and cond holds, else "".
+func KeyIf(prop, key string, cond bool) string {
+	if cond && OpenFinding(prop, key) {
+		return key
+	}
+	return ""
+}
